@@ -707,7 +707,20 @@ def _guarded_by_is_empty(b, pv, bi):
     return False
 
 
-RULES = [r1_postprocess_on_every_ok, r2_postprocessor_shape]
-for _f in RULES:
+def r3_cli_hands_out_the_result(w):
+    """= C15.R2 (CLI): what the command line tool prints or leaves in the file for an accepted input is the library's result, or the input when it is
+    byte-equal to it - a weaker notion of `unchanged` (seed C11/6B: `lines().eq(lines())`) lets an input without a final line feed through"""
+    from rules import c15
+    rs = c15.r2_only_if_changed(w)
+    rs.rule = 'C11.R3'
+    for f in rs.findings:
+        f.rule = 'C11.R3'
+        f.key = f.key.replace('C15.R2|', 'C11.R3|', 1)
+    return rs
+
+
+RULES = [r1_postprocess_on_every_ok, r2_postprocessor_shape, r3_cli_hands_out_the_result]
+for _f in RULES[:2]:
     _f.needs = ('core',)
+r3_cli_hands_out_the_result.needs = ('cli',)
 MATRIX_RULES = RULES
